@@ -72,6 +72,13 @@ def cases(draw):
         if cs:
             n = cs[0]
             ops.append(["set_value", list(sp.path), n, [0] * len(sp.cells[n].params), 77])
+    if draw(st.booleans()):
+        # data with an IOSpec: its file is written in a separate phase of the save
+        sp = draw(st.sampled_from(G.all_spaces()))
+        ops.append(["new_pandas", list(sp.path), "pd0", draw(st.sampled_from(["data/pd0.csv", "pd0.xlsx"])),
+                    draw(st.sampled_from(["df", "ser"]))])
+        if draw(st.booleans()):
+            ops.append(["new_pandas", [], "pd1", "top/pd1.csv", "df"])
     return {"ops": ops, "mode": mode, "zip": use_zip, "prior": prior, "fractions": fr}
 
 
